@@ -18,7 +18,8 @@
 
    Not exhibited by this model, and therefore assumed: that std::sync::Mutex provides mutual
    exclusion and release/acquire ordering (here: Acquire is atomic and the cell is
-   sequentially consistent), poisoning, and the other buckets/locks (one stream = one cell).
+   sequentially consistent) and poisoning.  The whole table with one lock per bucket and
+   threads of many streams is Model/RrlConcT.v; it projects onto this system (c28_table_projection).
    No proofs in this file. *)
 From QV Require Export Model.Rrl.
 Local Open Scope N_scope.
